@@ -144,7 +144,10 @@ class Parser:
                 self.eat()
                 if self.at("mut"):
                     self.eat()
-                return self.parse_pat()
+                p = self.parse_pat()
+                if v == "ref" and p[0] == "pid":
+                    return ("pidref", p[1])
+                return p
             segs = [self.eat()[1]]
             while self.at("::"):
                 self.eat(); segs.append(self.eat()[1])
